@@ -63,6 +63,13 @@ Theorem C05_supported_numbers_are_exactly_zero_in_the_solver :
 Proof. exact supported_numbers_stay_exactly_zero. Qed.
 Print Assumptions C05_supported_numbers_are_exactly_zero_in_the_solver.
 
+(* the vector the solver's loop tests (its r) is, in exact arithmetic, f - K x for the x it would return, after any number of
+   passes (C09_what_the_solver_finds_good_enough_passes_the_acceptance_test draws the consequence for the tolerance it is given) *)
+Theorem C05_the_residual_the_solver_tests_is_the_residual_of_its_answer : forall (n : nat) (A : nat -> nat -> Q) (b : nat -> Q) (k i : nat),
+  pcg_r (pcg_iter n A k (pcg_init n A b)) i == b i - pcg_mv n A (pcg_answer n A b k) i.
+Proof. intros. apply the_residual_tested_is_the_residual_of_the_answer. Qed.
+Print Assumptions C05_the_residual_the_solver_tests_is_the_residual_of_its_answer.
+
 (* the model of the solver is a solver: 4x + y = 1, x + 3y = 2, z = 0 is solved exactly after two passes (and not after one) *)
 Example C05_the_solver_model_solves :
   let A (i j : nat) : Q := match i, j with O, O => 4 | O, 1%nat => 1 | 1%nat, O => 1 | 1%nat, 1%nat => 3 | 2%nat, 2%nat => 1 | _, _ => 0 end in
